@@ -8,6 +8,9 @@
    The FFT path is modelled by circ_autocov: the circular autocorrelation of the centred,
    zero-padded sequence, which is what IDFT(|DFT|^2) equals by the correlation theorem (trusted,
    not part of this development). *)
+(* Model.StatsEval: the Q-instance evaluation entry points (c12_eval, c12_paths_agree) used by the
+   correspondence check of this property. *)
+From MiniMcmc Require Import Model.StatsEval.
 From MiniMcmc Require Import Base.Num Base.Util Model.Stats Proofs.Ess.
 From Coq Require Import Reals Lra Lia Permutation.
 Open Scope R_scope.
